@@ -298,3 +298,31 @@ Definition add_requests (v : claims_view) (cur locktime : Z) (reqs : list Z) : c
 
 (** all outpoints some pending claim intends to spend *)
 Definition in_flight (v : claims_view) : list Z := tracked v ++ flat_map snd (locked v).
+
+(** * Funding scopes (a splice / RBF that is negotiated but not locked)
+
+    The monitor holds its current [FundingScope] and the pending ones, each with its own commitment
+    transactions and therefore its own value of this node's balance output. Which scope a confirmed
+    commitment belongs to is decided by [get_confirmed_funding_scope!]: the pending scope whose funding
+    transaction is recorded in [alternative_funding_confirmed], else the current one. Everything said
+    about the confirmed commitment -- its balance above all -- must be read from THAT scope. *)
+Record scope := mkScope {
+  s_funding : Z;          (* funding txid of the scope *)
+  s_holder_main : Z;      (* to_broadcaster_value_sat of this scope's holder commitment *)
+  s_counterparty_main : Z (* value of this node's output in this scope's counterparty commitment *)
+}.
+
+Definition confirmed_scope (current : scope) (pending : list scope) (alt : option Z) : scope :=
+  match alt with
+  | Some t => match find (fun s => s_funding s =? t) pending with Some s => s | None => current end
+  | None => current
+  end.
+
+Definition scope_main (sd : side) (s : scope) : Z :=
+  match sd with HolderTx => s_holder_main s | CounterpartyTx => s_counterparty_main s end.
+
+(** the closure as the monitor sees it: side, height, CSV and HTLCs as given, the main value read from
+    the scope the confirmed commitment spends *)
+Definition closure_in (sd : side) (h csv : Z) (hs : list htlc) (current : scope) (pending : list scope)
+           (alt : option Z) : closure :=
+  mkClosure sd h (scope_main sd (confirmed_scope current pending alt)) csv hs.
